@@ -49,7 +49,7 @@ def c13(chk):
     full = {"nodes": nodes, "initKnown": True, "encodeSweeps": 6 if quick else 80, "fullSweep": True}
     v, st = run_schedules(chk, full, "encode-full-sweeps", nodes, invariants=C13_TRACE_INV)
     account(st)
-    walks = {"nodes": ["a", "b", "c", "d"], "initKnown": True, "walks": 100 if quick else 2500, "depth": 80,
+    walks = {"nodes": ["a", "b", "c", "d"], "initKnown": True, "walks": 600 if quick else 8000, "depth": 80,
              "keys": ["k1", "k2", "k3", "a-much-longer-key-name-to-vary-sizes"],
              "vals": ["", "x", "y", "a-longer-value-to-vary-entry-sizes", "é日本😀"],
              "writers": ["a", "b", "c", "d"], "masked": True, "crashers": []}
